@@ -24,7 +24,7 @@ CONFIG = {
              'the previous cache bytes (or no cache file) and the next build must not be refused; '
              'evaluations = builds + rebuilds + fault runs judged; distinct_nontrivial = distinct (program '
              'shape, step kinds) with >=1 hit and >=1 miss'),
-    'gates': ['builds_committed', 'unchanged_rebuilds', 'values_compared', 'awkward_targets_built',
+    'gates': ['write_fault_class:OSError', 'write_fault_class:ValueError', 'builds_committed', 'unchanged_rebuilds', 'values_compared', 'awkward_targets_built',
               'write_fault_runs', 'write_fault_mid', 'clean_on_copy', 'cache_events_checked'],
 }
 
@@ -134,7 +134,10 @@ def write_fault_probe(sh, w, program, sr, ctx):
     if os.path.isfile(w.cache):
         with open(w.cache, 'rb') as f:
             pre_cache = (f.read(), os.stat(w.cache).st_mtime_ns)
-    plan = faults.make_plan(mode, rng.choice(['ENOSPC', 'EIO', 'EDQUOT']))
+    code = rng.choice(['ENOSPC', 'EIO', 'EDQUOT', 'ValueError', 'RuntimeError', 'UnicodeEncodeError',
+                       'RecursionError', 'MemoryError'])
+    plan = faults.make_plan(mode, code)
+    sh.count('write_fault_class:' + ('OSError' if code.startswith('E') else code))
     proxy.plan = plan
     try:
         sr2 = w.build(program, body, vers, label=label, run_model=False,
